@@ -371,6 +371,91 @@ def c17(run, vc):
                       assumptions=["panics are observed under catch_unwind; non-termination would show as a timeout (exit 2)", "dependency calls are total per their contract"])
 
 
+# ------------------------------------------------------------------------------------ C20
+def c20(run, vc):
+    import subprocess, shutil
+    tier = run.tier
+    tables = _prep(run, vc)
+    # the design: fresh generator per call, all interleavings of 2 processes x 2 threads
+    r = vc.tlc("MC_Rng", "MC_Rng_%s.cfg" % tier, "c20_rng", timeout=7200)
+    run.add_tlc(r, "MC_Rng_%s.cfg (Mode = entropy)" % tier)
+    if r["violated"]:
+        vc.spec_violation(run, r, "MC_Rng", "MC_Rng_%s.cfg" % tier)
+        return run.finish()
+    # negative controls: each faulty seeding discipline must violate NoReuse / FreshGenerators
+    killed = []
+    for m in ("clock", "static", "threadlocal", "fork"):
+        rn = vc.tlc("MC_Rng", "MC_Rng_neg_%s.cfg" % m, "c20_neg_" + m, timeout=600)
+        if not rn["violated"]:
+            raise vc.ToolError("vacuity: faulty variant %s does not violate the invariants" % m)
+        killed.append(m)
+    run.extra_cov["faulty_variants_refuted_by_tlc"] = killed
+    # the implementation: P processes started together, T threads each, N rounds of every entry point
+    n, t, p = (48, 4, 2) if tier == "quick" else (512, 16, 4)
+    outs = []
+    procs = []
+    for i in range(p):
+        op = os.path.join(vc.WORK, "c20_proc%d.ndjson" % i)
+        outs.append(op)
+        procs.append(subprocess.Popen([vc.bin_path(), "record", "--driver", "rng", "--events", str(n), "--threads", str(t), "--proc", str(i + 1), "--out", op],
+                                      stdout=subprocess.PIPE, stderr=subprocess.STDOUT))
+    for pr in procs:
+        pr.wait(timeout=3000)
+        if pr.returncode != 0:
+            raise vc.ToolError("rng driver failed: " + pr.stdout.read().decode()[-2000:])
+    merged = os.path.join(vc.WORK, "c20_rng.trace.ndjson")
+    calls = 0
+    with open(merged, "w") as f:
+        for op in outs:
+            for line in open(op):
+                f.write(line)
+                calls += line.startswith('{"entry"') or '"ev":"Call"' in line
+    nev = sum(1 for _ in open(merged))
+    if tier == "quick":
+        ok, at, ev, dt, states = vc.validate_trace("Trace_Rng", merged, "c20")
+        spec_used = "Trace_Rng"
+    else:
+        # sorted variant: 96-bit keys as three integers, strictly increasing
+        keys = []
+        for line in open(merged):
+            e = json.loads(line)
+            if e["ev"] == "Call":
+                for x in e["eph"]:
+                    keys.append(("e" + x, e))
+            elif e["ev"] == "Gen":
+                keys.append(("g" + e["fp"][:24], e))
+        import hashlib
+        ks = []
+        for k, e in keys:
+            hx = hashlib.sha256(k.encode()).hexdigest()
+            ks.append(((int(hx[0:7], 16), int(hx[7:14], 16), int(hx[14:21], 16)), k))
+        ks.sort()
+        sp = os.path.join(vc.WORK, "c20_sorted.ndjson")
+        with open(sp, "w") as f:
+            for (a, b, c), k in ks:
+                f.write(json.dumps({"ev": "Draw", "k": [a, b, c]}) + "\n")
+        ok, at, ev, dt, states = vc.validate_trace("Trace_RngSorted", sp, "c20s", timeout=7000)
+        spec_used = "Trace_RngSorted"
+        nev = len(ks)
+    run.stages.append({"stage": "trace", "driver": "rng", "spec": spec_used, "processes": p, "threads": t, "rounds": n, "events": nev, "accepted": ok, "tlc_wall_s": round(dt, 1)})
+    run.states += states
+    run.transitions += states
+    if ok:
+        run.traces += 1
+        run.trace_events += nev
+        with open(merged) as f:
+            run.samples.append({"trace_excerpt": [json.loads(f.readline()) for _ in range(3)]})
+    else:
+        keep = os.path.join(vc.REPLAYS, run.prop)
+        os.makedirs(keep, exist_ok=True)
+        kp = os.path.join(keep, "trace_rng_seed%d.ndjson" % vc.SEED)
+        shutil.copy(merged, kp)
+        run.violations.append(("trace", {"why": "an ephemeral value or generator repeats: trace rejected by %s at event %d: %s" % (spec_used, at, json.dumps(ev)[:300]), "event": ev, "at": at, "trace": kp}))
+    run.nontrivial.update({"entropy", "clock", "static", "threadlocal", "fork"})
+    return run.finish(rule="TLC: all interleavings of 2 processes x 2 threads x Calls x Draws of the Rng model with fresh-entropy seeding (NoReuse, FreshGenerators hold) and four faulty seeding disciplines (each refuted); trace: every randomized entry point (11) called with identical arguments (message lengths 0, 1, 2, 15) N times on T threads in P processes started together, observables injective in the ephemeral values plus the fingerprint of every generator (hook), validated by TLC as Draw actions that are enabled only for never-seen values",
+                      assumptions=["get_crypto_rng hook (--cfg blsful_verif) reports a fingerprint of a clone of each generator", "OS entropy is modelled as an unbounded pool of distinct seeds", "hash prefixes (96 bits) stand for the observables"])
+
+
 # ------------------------------------------------------------------------------------ traces
 def _trace_signet(run, vc, tables, name, events, mix="all"):
     """implementation -> spec: record a random walk of the real library, validate with TLC."""
@@ -379,4 +464,4 @@ def _trace_signet(run, vc, tables, name, events, mix="all"):
     vc.record_and_validate(run, "signet", "Trace_SigNet", name, events, tables, mix=mix)
 
 
-CHECKS = {"C01": c01, "C02": c02, "C06": c06, "C07": c07, "C08": c08, "C09": c09, "C10": c10, "C11": c11, "C12": c12, "C13": c13, "C14": c14, "C15": c15, "C16": c16, "C17": c17}
+CHECKS = {"C01": c01, "C02": c02, "C06": c06, "C07": c07, "C08": c08, "C09": c09, "C10": c10, "C11": c11, "C12": c12, "C13": c13, "C14": c14, "C15": c15, "C16": c16, "C17": c17, "C20": c20}
